@@ -3,6 +3,7 @@ package nat
 import (
 	"context"
 	"encoding/binary"
+	"errors"
 	"fmt"
 	"net"
 	"os"
@@ -533,15 +534,17 @@ func (m *Manager) DeallocateNAT(privateIP net.IP) error {
 		m.allocationMu.Unlock()
 		return nil // Not allocated
 	}
-	delete(m.allocations, privKey)
-	m.allocationMu.Unlock()
 
-	// Remove from eBPF map
+	// Remove from eBPF map first: as long as the data plane still translates this
+	// subscriber into the block, the block must stay reserved and attributed to it
 	if m.subscriberNAT != nil {
-		if err := m.subscriberNAT.Delete(&privKey); err != nil {
-			m.logger.Warn("Failed to delete subscriber NAT entry", zap.Error(err))
+		if err := m.subscriberNAT.Delete(&privKey); err != nil && !errors.Is(err, ebpf.ErrKeyNotExist) {
+			m.allocationMu.Unlock()
+			return fmt.Errorf("failed to delete subscriber NAT entry: %w", err)
 		}
 	}
+	delete(m.allocations, privKey)
+	m.allocationMu.Unlock()
 
 	// Update pool count
 	m.poolMu.Lock()
